@@ -807,9 +807,29 @@ type collisionCase struct {
 	val  any // pointer to a populated value
 }
 
+// localOne and localTwo return values of two different function-local types that have the same name in
+// the same package (as two test functions that each declare `type Local struct{...}` do).
+func localOne() any {
+	type Local struct {
+		One  int
+		Name string
+	}
+	return &Local{One: 1, Name: "one"}
+}
+
+func localTwo() any {
+	type Local struct {
+		Two   []string
+		Ratio float64
+	}
+	return &Local{Two: []string{"t"}, Ratio: 0.5}
+}
+
 func collisionPool() []collisionCase {
 	f := 2.5
 	return []collisionCase{
+		{"localOne.Local", localOne()},
+		{"localTwo.Local", localTwo()},
 		{"c16.Rec", &Rec{RecID: 7, RecTags: map[string]string{"a": "b"}}},
 		{"other.Rec", &other.Rec{Name: "n", Count: 3, Extra: []string{"x", "y"}}},
 		{"c16.Pair", &Pair{Left: 4, Right: "r"}},
